@@ -345,18 +345,20 @@ RANDOM_COMBOS = {
     "min-only":  (C(3, 0, 0), "load"),        # only minSize given: maxSize and the watermark take their defaults afterwards
     # maxSize 4294967295 and watermark 3000000000 (see vCfg.Big in the harness; the ghost sees the stand-in 1000000)
     "big":       (dict(C(1, 1000000, 1000000), big=True), "load"),
+    # an ApiConfig that has method entries but no channelPool section at all: every pool setting takes its default
+    "nopool":    (dict(C(0, 0, 0), nopool=True), "load"),
 }
 PROP_COMBOS = {
     "C01": ["aff", "aff-ref", "aff-fb", "aff-wide", "mixed"],
     "C02": ["load", "load-ref", "load-grow", "aff-ref", "rr-ref", "mixed"],
-    "C03": ["load-grow", "faults-min", "minmax", "min-only", "aff", "mixed"],
+    "C03": ["load-grow", "faults-min", "minmax", "min-only", "nopool", "aff", "mixed"],
     "C04": ["mixed", "faults", "ref", "load-ref"],
     "C05": ["faults", "faults-min", "mixed", "rr-ref"],
     "C06": ["faults-min", "faults", "rr", "mixed"],
     "C07": ["ref", "aff-ref", "load-ref", "ref-fb", "rr-ref"],
     "C08": ["aff-fb", "ref-fb", "faults", "mixed"],
     "C09": ["rr", "rr-ref", "mixed"],
-    "C17": ["defaults", "big", "min-only", "mixed"],
+    "C17": ["defaults", "nopool", "big", "min-only", "mixed"],
     "C20": ["ref", "faults", "mixed", "aff-ref"],
 }
 
